@@ -17,6 +17,16 @@ VALUE = XLError('#VALUE!')
 DATA = XLError('#GETTING_DATA')
 
 
+def clear_tracebacks():
+    """
+    The errors above are singletons that get raised again and again. Python keeps
+    extending the traceback of a re-raised exception object, so each one would go on
+    accumulating the frames of every evaluation that raised it.
+    """
+    for xlerror in (ERROR, DIV_ZERO, NAME, NOT_AVAILABLE, NULL, NUM, REF, VALUE, DATA):
+        xlerror.__traceback__ = None
+
+
 def from_message(message):
     errdict = {
         '#ERROR!': ERROR,
